@@ -68,7 +68,7 @@ DOMAIN = {
     "math::log::methods::log_ir": "i64::checked_ilog10", "math::log::methods::log_ur": "u64::checked_ilog10",
     "math::pow::methods::pow_iir": "i64::checked_pow", "math::pow::methods::pow_iur": "i64::checked_pow", "math::pow::methods::pow_idr": "i64::checked_pow",
     "math::pow::methods::pow_uir": "u64::checked_pow", "math::pow::methods::pow_uur": "u64::checked_pow", "math::pow::methods::pow_udr": "u64::checked_pow",
-    "string::split::split_at::split_at_zsir::{closure#0}": "str::split_at_checked",
+    "string::split::split_at::split_at_zsir": "str::split_at_checked",
 }
 PANICKY = re.compile(r"\b(?:i64|u64)::(?:abs|pow|ilog2|ilog10|ilog)\(|str::split_at\(")
 
@@ -95,7 +95,7 @@ def row_of(b):
 _DROP_HEADS = ("Try::branch", "FromResidual::from_residual", "exchange_malloc", "slice::into_vec", "must_use", "format", "Arguments::new",
                "Argument::new", "rt::new", "Iterator::collect", "Iterator::map", "Iterator::next", "Cow::into_owned", "Option::", "Result::",
                "CelError::", "CelValue::from_err", "Vec::new", "Vec::push", "Iterator::min", "slice::iter_mut", "CelValue::from_null",
-               "CelValue::from_val_slice")
+               "CelValue::from_val_slice", "RangeInclusive::", "Range::", "RangeBounds::")
 
 
 def _dropped(e):
@@ -105,9 +105,9 @@ def _dropped(e):
 
 def extract_rows(F):
     rows = {}
-    for b in F.bodies.values():
-        if in_scope(b):
-            rows[b.path[len(PFX):]] = row_of(b)
+    scope = [b for b in F.bodies.values() if in_scope(b)]
+    for b in common.root_bodies(F, scope):
+        rows[b.path[len(PFX):]] = common.normal_row(F, b, _dropped, ("usize", "i64", "u64", "i32", "u32"))
     return rows
 
 
@@ -168,7 +168,10 @@ def run(chk, tier):
         if name not in rows:
             chk.bad("R15.4", "shape|" + name, "overload / helper %s no longer exists: the accepted argument shapes differ from the documented table" % name, "rscel/src/context/default_funcs")
             continue
-        got, want = rows[name], frozen[name]
+        got, want = dict(rows[name]), dict(frozen[name])
+        # payloads of earlier results are compared as `_` (matched out by hand or handed over by a combinator: the same value)
+        got["calls"] = sorted(common.payload_blind(x) for x in got["calls"])
+        want["calls"] = sorted(common.payload_blind(x) for x in want.get("calls", []))
         cmp_keys = ("calls", "casts", "cmp")
         if all(got[k] == want.get(k, []) for k in cmp_keys):
             chk.ok("R15.2", "row|" + name, got["calls"][:3] if got["calls"] else "identity")
@@ -181,7 +184,7 @@ def run(chk, tier):
                 for x in (b - a):
                     diff.append("new %s: %s" % (k, x))
             chk.bad("R15.2", "row|" + name, "%s no longer applies its documented primitive to the same operands: %s" % (name, "; ".join(diff)), "rscel/src/context/default_funcs")
-    chk.floor("R15.2", "overload rows", len(rows), 78)
+    chk.floor("R15.2", "overload rows", len(rows), 50)
 
     # ---- R15.3
     for a, b, mp in SIBLINGS:
